@@ -281,6 +281,22 @@ func init() {
 			}
 			panic(pathAbort{"assume", "ConcretizeByte: no candidate"})
 		},
+		"Go": func(in *Interp, _ *ssa.Function, a []Value, c *frame) Value {
+			f := a[0]
+			in.spawn(func() { in.callFunc(f, nil, nil) })
+			return nil
+		},
+		// Preemptions sets the preemption bound of this world (0 = a thread runs
+		// until it blocks or finishes).
+		"Preemptions": func(in *Interp, _ *ssa.Function, a []Value, c *frame) Value {
+			in.sched().bound = in.cint(a[0])
+			in.sched().boundSet = true
+			return nil
+		},
+		"StartAll": func(in *Interp, _ *ssa.Function, a []Value, c *frame) Value {
+			in.schedPoint("start")
+			return nil
+		},
 		"Yield": func(in *Interp, _ *ssa.Function, a []Value, _ *frame) Value {
 			in.schedPoint("yield")
 			return nil
